@@ -20,6 +20,9 @@ pub mod nom {
         ensures match r { Some(rest) => i@.len() > 0 && i@[0] == c && rest@ == i@.skip(1), None => !(i@.len() > 0 && i@[0] == c) } { unimplemented!() }
     #[verifier::external_body] pub fn __char_p<'a>(i: &'a str, c: char) -> (r: IResult<&'a str, char>)
         ensures match r { Ok((rest, o)) => i@.len() > 0 && i@[0] == c && rest@ == i@.skip(1) && o == c, Err(e) => !(i@.len() > 0 && i@[0] == c) && e is Error } { unimplemented!() }
+    /// one_of(set)(i): the first character when it is one of `set`
+    #[verifier::external_body] pub fn __one_of<'a>(i: &'a str, set: &str) -> (r: IResult<&'a str, char>)
+        ensures match r { Ok((rest, o)) => i@.len() > 0 && set@.contains(i@[0]) && rest@ == i@.skip(1) && o == i@[0], Err(e) => !(i@.len() > 0 && set@.contains(i@[0])) && e is Error } { unimplemented!() }
     /// a recoverable error (Err::Error) at `i`
     #[verifier::external_body] pub fn __error<'a>(i: &'a str) -> (r: Err<error::Error<&'a str>>) ensures r is Error { unimplemented!() }
     #[verifier::external_body] pub fn __recoverable<'a>(e: &Err<error::Error<&'a str>>) -> (r: bool) ensures r == (*e is Error) { unimplemented!() }
